@@ -31,3 +31,20 @@ const (
 
 // VerifNewClusterView exposes newClusterView.
 func VerifNewClusterView() *ClusterView { return newClusterView() }
+
+// VerifMembers returns the node actor's current members (clones), and its own state.
+func (a *NodeActor) VerifMembers() (self *NodeState, members []*NodeState) {
+	for _, m := range a.clusterView.Members {
+		members = append(members, m.Clone())
+	}
+	return a.nodeState.Clone(), members
+}
+
+// VerifLeader returns ComputeLeaderAddr of the node actor's view.
+func (a *NodeActor) VerifLeader() string { return ComputeLeaderAddr(a.clusterView) }
+
+// VerifSetBirth sets the node's own Timestamp / LastSeen (taken from the real clock at construction).
+func (a *NodeActor) VerifSetBirth(ts int64) {
+	a.nodeState.Timestamp = ts
+	a.nodeState.LastSeen = ts
+}
